@@ -174,6 +174,20 @@ theorem restore_exec (kwargsRaise : Bool) (a : Act) (body : Forest)
 /-- every scenario the harness generates as a forest satisfies the hypothesis of `restore_nested` -/
 theorem forest_well_nested (f : Forest) : WN none (flatten none f) := flatten_wn f none
 
+/-- and every well-nested list comes from a forest: `WN none` and "is the step list of a forest" are the same
+    hypothesis -/
+theorem well_nested_iff_forest (evs : List Ev) : WN none evs ↔ ∃ f : Forest, flatten none f = evs :=
+  ⟨wn_is_forest, fun ⟨f, hf⟩ => hf ▸ flatten_wn f none⟩
+
+/-- `restore_nested` with decidable hypotheses only: for every scenario forest whose action ids are distinct -/
+theorem restore_forest (f : Forest) (hn : (started (flatten none f)).Nodup) :
+    (run St.init (flatten none f)).cell = .orig ∧
+    (run St.init (flatten none f)).unbound = false ∧
+    (∀ a, a ∈ started (flatten none f) →
+      (run St.init (flatten none f)).out a = some (writesOf a (flatten none f))) ∧
+    (run St.init (flatten none f)).origLog = [] :=
+  restore_nested _ (flatten_wn f none) hn
+
 /-- The same **with the live copy of `Writer`** (the machine `Fwd`: a writer forwards every write to the live
     stream it was handed, which in a nested execution is the enclosing action's writer): for every well-nested
     list of any depth, whatever the verbosity of each execution, the cell is restored, every buffer's own
@@ -191,6 +205,20 @@ theorem restore_nested_live (evs : List Fwd.Ev) (h : Fwd.WN none evs) (hn : (Fwd
   exact ⟨F.cell, F.unbound, F.outs, fun hoff => F.quiet hoff (by intro a ha; cases ha)⟩
 
 theorem forest_well_nested_live (f : Fwd.Forest) : Fwd.WN none (Fwd.flatten none f) := Fwd.flatten_wn f none
+
+theorem well_nested_iff_forest_live (evs : List Fwd.Ev) :
+    Fwd.WN none evs ↔ ∃ f : Fwd.Forest, Fwd.flatten none f = evs :=
+  ⟨Fwd.wn_is_forest, fun ⟨f, hf⟩ => hf ▸ Fwd.flatten_wn f none⟩
+
+/-- `restore_nested_live` with decidable hypotheses only -/
+theorem restore_forest_live (f : Fwd.Forest) (hn : (Fwd.started (Fwd.flatten none f)).Nodup) :
+    (Fwd.run Fwd.St.init (Fwd.flatten none f)).cell = .orig ∧
+    (Fwd.run Fwd.St.init (Fwd.flatten none f)).unbound = false ∧
+    (∀ a, a ∈ Fwd.started (Fwd.flatten none f) →
+      ∃ l, (Fwd.run Fwd.St.init (Fwd.flatten none f)).out a = some l ∧
+        Fwd.own a l = Fwd.writesOf a (Fwd.flatten none f)) ∧
+    (Fwd.allOff (Fwd.flatten none f) = true → (Fwd.run Fwd.St.init (Fwd.flatten none f)).origLog = []) :=
+  restore_nested_live _ (Fwd.flatten_wn f none) hn
 
 /-- **Overlapping executions** (two threads of one process, F-C17a, open): a legal interleaving of two
     python-actions (each thread follows its program order) after which the cell holds the stale writer of
